@@ -62,6 +62,76 @@ SUITES = {
     },
 }
 
+def _seg_suite(name, dims, dname, scale, sname, use_scale=True, depth=(2, 3), sample=None):
+    d = {
+        "tla": {"N": "3", "T": "3", "Dims": f"<- {dname}", "Scale": f"<- {sname}"},
+        "cfg": {"N": 3, "T": 3, "dims": dims, "scale": scale, "use_scale": use_scale, "reg_cust": False,
+                "per_axis_pos": False, "name": name, "enable": ["iou"]},
+        "kinds": [2, 3, 4, 5, 6, 9], "extra_act": ["iou"], "seeds": "SeedsSeg",
+        "depth": {"quick": depth[0], "thorough": depth[1]}, "maxid": 8,
+        "design_depth": {"quick": 0, "thorough": 1}, "cat_workers": 8,
+    }
+    if sample:
+        d["sample"] = sample
+    return d
+
+
+SUITES["seg13"] = _seg_suite("seg13", [1, 3], "D_1x3", [1, 1], "S_11", sample={"quick": 1000, "thorough": 12000})
+SUITES["seg22"] = _seg_suite("seg22", [2, 2], "D_2x2", [2, 3], "S_23", sample={"quick": 600, "thorough": 8000})
+SUITES["seg3d"] = _seg_suite("seg3d", [1, 2, 2], "D_1x2x2", [2, 1, 3], "S_213", sample={"quick": 350, "thorough": 8000})
+SUITES["seg13n"] = _seg_suite("seg13n", [1, 3], "D_1x3", [1, 1], "S_11", use_scale=False,
+                              sample={"quick": 400, "thorough": 4000})
+SUITES["struct4"]["seeds"] = "SeedsStruct4"
+
+import hashlib
+
+CACHE = os.path.join(ROOT, ".cache")
+
+
+def spec_hash():
+    h = hashlib.sha256()
+    for f in sorted(glob.glob(os.path.join(tlc.SPEC_DIR, "*.tla"))):
+        h.update(open(f, "rb").read())
+    return h.hexdigest()[:16]
+
+
+def cached(kind, keyobj, compute):
+    """Results that depend ONLY on /verif/spec (never on /repo): design-level runs and catalogues.
+    Keyed by the content of every spec module and the constants."""
+    key = hashlib.sha256(json.dumps([kind, spec_hash(), keyobj], sort_keys=True).encode()).hexdigest()[:24]
+    path = os.path.join(CACHE, f"{kind}_{key}.json")
+    if os.path.exists(path):
+        try:
+            v = json.load(open(path))
+            v["from_cache"] = True
+            return v
+        except Exception:  # noqa: BLE001
+            pass
+    v = compute()
+    os.makedirs(CACHE, exist_ok=True)
+    tmp = path + f".{os.getpid()}.tmp"
+    json.dump(v, open(tmp, "w"))
+    os.replace(tmp, path)
+    v["from_cache"] = False
+    return v
+
+
+def harness_env():
+    """Environment of the harness subprocesses. VERIF_FUNTRACKS_SRC (used only by the seeded-change
+    tooling) points funtracks at a scratch worktree instead of /repo's working tree."""
+    e = dict(os.environ)
+    src = os.environ.get("VERIF_FUNTRACKS_SRC")
+    if src:
+        e["PYTHONPATH"] = src
+    return e
+
+
+def out_dir(kind):
+    """evidence / replays directory (overridable for runs against seeded changes)"""
+    d = os.environ.get("VERIF_OUT_DIR")
+    return os.path.join(d, kind) if d else os.path.join(ROOT, kind)
+
+
 REGS = {"C01": 11, "C03": 13, "C04": 14, "C05": 15, "C06": 16, "C07": 17, "C08": 18, "C09": 19,
         "C11": 21, "C20": 30}
 
@@ -71,14 +141,19 @@ def mc_constants(suite, depth, emit, hist=False):
     c.update({"Fixes": tlc.tla_set(ALL_FIXES), "Depth": str(depth), "MaxId": str(suite["maxid"]),
               "Hist": "TRUE" if hist else "FALSE", "Kinds": tlc.tla_set(suite["kinds"]),
               "EmitCat": "TRUE" if emit else "FALSE"})
-    if suite["cfg"].get("reg_cust"):
-        c["RegCust"] = "TRUE"
-    else:
-        c["RegCust"] = "FALSE"
+    c["RegCust"] = "TRUE" if suite["cfg"].get("reg_cust") else "FALSE"
+    c["ExtraAct"] = tlc.tla_set(suite.get("extra_act", []))
+    c["Seeds"] = "<- " + suite.get("seeds", "SeedsNone")
     return c
 
 
 def design_run(suite, tier, scratch, prop, log):
+    depth = suite["design_depth"][tier]
+    return cached("design", [mc_constants(suite, depth, False), tier == "thorough"],
+                  lambda: _design_run(suite, tier, scratch, prop, log))
+
+
+def _design_run(suite, tier, scratch, prop, log):
     """Exhaustive model check of the DESIGN within the suite's bounds."""
     depth = suite["design_depth"][tier]
     cfgp = os.path.join(scratch, "design.cfg")
@@ -99,10 +174,25 @@ def design_run(suite, tier, scratch, prop, log):
 
 def catalogue(suite, tier, scratch, seed, log):
     depth = suite["depth"][tier]
+    full = cached("cat", mc_constants(suite, depth, True), lambda: _catalogue(suite, tier, scratch, log))
+    paths = full["paths"]
+    total = len(paths)
+    sample = suite.get("sample", {}).get(tier)
+    if sample and total > sample:
+        rnd = random.Random(seed)
+        keep = sorted(rnd.sample(range(total), sample))
+        paths = [paths[i] for i in keep]
+    info = dict(full["info"])
+    info.update({"catalogue_used": len(paths), "from_cache": full["from_cache"]})
+    return paths, info
+
+
+def _catalogue(suite, tier, scratch, log):
+    depth = suite["depth"][tier]
     cfgp = os.path.join(scratch, "cat.cfg")
     open(cfgp, "w").write(tlc.cfg_text(constants=mc_constants(suite, depth, True),
                                         invariants=["Emit"], constraint="Bound", view="View"))
-    out, dt, rc = tlc.run_tlc("MC.tla", cfgp, scratch, workers=1, tag="cat")
+    out, dt, rc = tlc.run_tlc("MC.tla", cfgp, scratch, workers=suite.get("cat_workers", 1), tag="cat")
     st = tlc.stats(out)
     if not tlc.completed_ok(out) or st is None:
         log(out[-3000:])
@@ -115,14 +205,8 @@ def catalogue(suite, tier, scratch, seed, log):
         if k not in seen:
             seen.add(k)
             paths.append(p)
-    total = len(paths)
-    sample = suite.get("sample", {}).get(tier)
-    if sample and total > sample:
-        rnd = random.Random(seed)
-        keep = sorted(rnd.sample(range(total), sample))
-        paths = [paths[i] for i in keep]
-    return paths, {"catalogue_states": total, "catalogue_used": len(paths), "depth": depth,
-                   "cat_generated": st["generated"], "wall_s": round(dt, 1)}
+    return {"paths": paths, "info": {"catalogue_states": len(paths), "depth": depth,
+                                     "cat_generated": st["generated"], "wall_s": round(dt, 1)}}
 
 
 def replay(suite, paths, scratch, nshards):
@@ -133,7 +217,8 @@ def replay(suite, paths, scratch, nshards):
     outdir = os.path.join(scratch, "rec")
     t0 = time.time()
     p = subprocess.run([PY, os.path.join(ROOT, "harness", "replay.py"), cfgp, pp, outdir, str(nshards),
-                        json.dumps(suite["kinds"])], stdout=subprocess.PIPE, stderr=subprocess.PIPE, text=True)
+                        json.dumps(suite["kinds"])], stdout=subprocess.PIPE, stderr=subprocess.PIPE, text=True,
+                       env=harness_env())
     if p.returncode != 0:
         raise MachineryError("replay harness failed:\n" + p.stderr[-3000:])
     info = json.loads(p.stdout.strip().splitlines()[-1])
